@@ -157,6 +157,8 @@ def main():
     texts += F.f_exh(2 if tier == "quick" else 3)
     texts += F.f_mem((3,), deltas=[0], ops=("SSTORE", "SLOAD", "MSTORE", "MLOAD"), mixed=True)
     texts += F.deep_stack_blocks()
+    texts += F.f_mem_consuming()
+    texts += F.f_rule_existing()[:: (12 if tier == "quick" else 2)]
     texts += F.f_rule_siblings(["LT", "GT", "ISZERO", "EQ", "SUB", "AND"], consts=(0, 1))[::3]
     # a load after a store of its own space whose value is then stored in the other space
     for st, ld, other in (("SSTORE", "SLOAD", "MSTORE"), ("MSTORE", "MLOAD", "SSTORE"), ("SSTORE", "SLOAD", "MSTORE8")):
